@@ -728,11 +728,19 @@ def build_case(group, cfg, box, seed, ai):
             if contained(cand, box) and listable(cand) and fold_key(cand) not in seen:
                 seen.add(fold_key(cand))
                 ghosts.append(dict(h, name=cand, cls=name_class(cand), up=up_depth(cand), **{"in": "nowhere"}))
+    # (without --skip-errors a single-archive extraction that meets an unreadable name writes nothing at all: there the ghosts
+    # would only turn the run into one that shows nothing, so they are used with --skip-errors and with patch chains)
+    skip_errors = random.Random(rng.getrandbits(32)).random() < 0.5
+    if not (skip_errors or cfg["chain"]):
+        ghosts = []
     ghost_listed = [g["name"] for g in ghosts] if ai % 3 != 2 else []
     version = rng.choice((1, 2))
     lead = [b[0] for b in BENIGN if b[1] == "lead"]
     trail = [b[0] for b in BENIGN if b[1] == "trail"]
-    order = lead + [h["name"] for h in hostile] + trail
+    # every eighth archive is a large one (after C11-r3m1): 1100 small ordinary entries in front of the hostile names, so that a
+    # whole-archive extraction is a request of more than 1000 names (the CLI and the library switch to their bulk paths there)
+    bulk = ["bulk\\d%02d\\f%04d.txt" % (j % 7, j) for j in range(1100)] if ai % 8 == 5 else []
+    order = lead + bulk + [h["name"] for h in hostile] + trail
     expect = {}
     files = []
     for n in order:
@@ -776,7 +784,7 @@ def build_case(group, cfg, box, seed, ai):
         args.append("--preserve-paths")
     if cfg["threads"]:
         args += ["--threads", str(cfg["threads"])]
-    if rng.random() < 0.5:
+    if skip_errors:
         args.append("--skip-errors")
     if patch_path:
         args += ["--patch", "../in/patch.mpq"]
@@ -795,7 +803,7 @@ def build_case(group, cfg, box, seed, ai):
     else:
         tool_order = order
     hostile = hostile + ghosts
-    return {"hostile": hostile, "dropped": dropped, "ghosts": [g["name"] for g in ghosts], "args": args, "expect": expect, "benign": benign, "lead": lead + (["!p0\\patch only.txt"] if cfg["chain"] else []),
+    return {"hostile": hostile, "dropped": dropped, "ghosts": [g["name"] for g in ghosts], "bulk": len(bulk), "args": args, "expect": expect, "benign": benign, "lead": lead + (["!p0\\patch only.txt"] if cfg["chain"] else []),
             "tool_order": tool_order, "out_arg": out_arg, "version": version}
 
 
@@ -846,6 +854,8 @@ def run_case(cli, ai, group, cfg, scratch, seed, keep=False):
                     except OSError:
                         pass
         cnt["ghost_names"] = len(case.get("ghosts", []))
+        if case.get("bulk"):
+            cnt["runs_on_archives_of_more_than_1000_entries"] = 1
         before = snapshot(outer)
         cmd = ["strace", "-ff", "-y", "-s", "16384", "-e", "trace=" + ",".join(TRACE), "-o", os.path.join(logdir, "t"), cli] + case["args"]
         try:
